@@ -187,7 +187,7 @@ func (sc *Scenario) submit(cb string, sub Sub) {
 
 func (sc *Scenario) guard(role string, f func()) {
 	sc.wg.Add(1)
-	isProd := role != "serve" && role != "sd"
+	isProd := role != "serve" && role != "sd" && role != "sdc"
 	if isProd {
 		sc.pwg.Add(1)
 	}
@@ -269,8 +269,13 @@ func (sc *Scenario) Start(cycle int) {
 }
 
 // StartShutdown launches the Shutdown caller of the current cycle.
-func (sc *Scenario) StartShutdown(res chan<- time.Duration) {
-	sc.guard("sd", func() {
+func (sc *Scenario) StartShutdown(res chan<- time.Duration) { sc.startShutdown("sd", res) }
+
+// StartCleanupShutdown stops the service after a run (not part of the schedule under test).
+func (sc *Scenario) StartCleanupShutdown(res chan<- time.Duration) { sc.startShutdown("sdc", res) }
+
+func (sc *Scenario) startShutdown(role string, res chan<- time.Duration) {
+	sc.guard(role, func() {
 		sc.tr.Gate("sd.call")
 		t0 := time.Now()
 		sc.tr.Log("sd.begin")
